@@ -1,8 +1,12 @@
 #!/bin/sh
-# usage: try_seeded.sh <patch.diff> <check args...>   -- apply a seeded change to /repo, run the check, undo
+# usage: try_seeded.sh <patch.diff> <check args...>
+# Runs a check against a scratch copy of /repo (sources + generated headers) with the seeded change applied,
+# so that /repo itself (and background runs using it) is not disturbed.  The copy is removed afterwards.
 p="$1"; shift
-git -C /repo apply "$p" || { echo "patch does not apply"; exit 9; }
-cd /verif && bin/check "$@" --no-evidence; rc=$?
-git -C /repo checkout -- .
+d=$(mktemp -d /tmp/mutrepo.XXXXXX)
+mkdir -p $d/src && cp -a /repo/src/*.[ch] $d/src/ && cp -a /repo/src/include $d/src/ && cp /repo/config.h $d/
+patch -s -p1 -d $d < "$p" || { echo "patch does not apply"; rm -rf $d; exit 9; }
+cd /verif && VERIF_REPO=$d bin/check "$@" --no-evidence; rc=$?
+rm -rf $d
 echo "exit=$rc"
 exit $rc
